@@ -453,6 +453,96 @@ pub mod sync {
     }
 }
 
+pub mod arc {
+    //! `std::sync::{Arc, Weak}` with announced upgrade / unwrap / drop, for code whose protocol
+    //! is the reference count itself.
+    use super::{spin_at, sync_point_at};
+    use std::panic::Location;
+
+    pub struct Arc<T: ?Sized>(std::mem::ManuallyDrop<std::sync::Arc<T>>);
+    pub struct Weak<T: ?Sized>(std::sync::Weak<T>);
+
+    impl<T> Arc<T> {
+        pub fn new(v: T) -> Self {
+            Arc(std::mem::ManuallyDrop::new(std::sync::Arc::new(v)))
+        }
+        #[track_caller]
+        pub fn try_unwrap(this: Self) -> Result<T, Self> {
+            let site = Location::caller();
+            sync_point_at("arc.try_unwrap", site);
+            let mut this = std::mem::ManuallyDrop::new(this);
+            let inner = unsafe { std::mem::ManuallyDrop::take(&mut this.0) };
+            match std::sync::Arc::try_unwrap(inner) {
+                Ok(v) => {
+                    sync_point_at("arc.try_unwrap.done", site);
+                    Ok(v)
+                }
+                Err(a) => {
+                    spin_at("arc.try_unwrap.failed", site);
+                    Err(Arc(std::mem::ManuallyDrop::new(a)))
+                }
+            }
+        }
+    }
+
+    impl<T: ?Sized> Arc<T> {
+        #[track_caller]
+        pub fn downgrade(this: &Self) -> Weak<T> {
+            Weak(std::sync::Arc::downgrade(&this.0))
+        }
+        pub fn strong_count(this: &Self) -> usize {
+            std::sync::Arc::strong_count(&this.0)
+        }
+    }
+
+    impl<T: ?Sized> Clone for Arc<T> {
+        #[track_caller]
+        fn clone(&self) -> Self {
+            sync_point_at("arc.clone", Location::caller());
+            Arc(std::mem::ManuallyDrop::new(std::sync::Arc::clone(&self.0)))
+        }
+    }
+
+    impl<T: ?Sized> Drop for Arc<T> {
+        fn drop(&mut self) {
+            let site = Location::caller();
+            sync_point_at("arc.drop", site);
+            unsafe { std::mem::ManuallyDrop::drop(&mut self.0) };
+            sync_point_at("arc.drop.done", site);
+        }
+    }
+
+    impl<T: ?Sized> std::ops::Deref for Arc<T> {
+        type Target = T;
+        fn deref(&self) -> &T {
+            &self.0
+        }
+    }
+
+    impl<T: ?Sized + std::fmt::Debug> std::fmt::Debug for Arc<T> {
+        fn fmt(&self, f: &mut std::fmt::Formatter<'_>) -> std::fmt::Result {
+            (**self.0).fmt(f)
+        }
+    }
+
+    impl<T: ?Sized> Weak<T> {
+        #[track_caller]
+        pub fn upgrade(&self) -> Option<Arc<T>> {
+            let site = Location::caller();
+            sync_point_at("weak.upgrade", site);
+            let r = self.0.upgrade().map(|a| Arc(std::mem::ManuallyDrop::new(a)));
+            sync_point_at("weak.upgrade.done", site);
+            r
+        }
+    }
+
+    impl<T: ?Sized> std::fmt::Debug for Weak<T> {
+        fn fmt(&self, f: &mut std::fmt::Formatter<'_>) -> std::fmt::Result {
+            self.0.fmt(f)
+        }
+    }
+}
+
 pub mod thread {
     /// `std::thread::spawn` for detached background threads: the simulator may adopt the closure.
     pub fn spawn_detached<F>(name: &str, f: F) -> std::io::Result<()>
